@@ -22,7 +22,9 @@ RULE = (
     "lint_paths over subsets with a shared Linter (serial and SimPool, inproc and forked workers), lint_string with "
     "inline directives on the same Linter, CLI lint in a fresh node, cache eviction, restart. Every observation "
     "(the config object actually handed to lint_rendered, or returned by load_raw_file_and_config) is compared on 10 "
-    "typed probe keys with a reference merge written from the statement for that file ALONE. evaluations = "
+    "typed probe keys with a reference merge written from the statement for that file ALONE; in addition the violations "
+    "one file got inside the history must equal those of the same file linted in a fresh process against ONE flat "
+    ".sqlfluff holding the model's values (every file body reacts to every probed key). evaluations = "
     "per-file observations. non-trivial iff >= 2 sources set the probed key to different values, or the "
     "observation was preceded in the same node by a file from a different directory or inline set; distinct = "
     "distinct (hierarchy digest, file, history-prefix digest)."
@@ -67,6 +69,17 @@ DEFAULTS = {
     "templater:jinja:context:k1": None,
     "templater:jinja:context:k2": None,
 }
+# one body for every file / string: its violations react to every probed key (line length 60/80 vs
+# 100/120, keyword capitalisation policy, indent size/unit, comma position, rule selection, jinja
+# context k1), so a wrong effective config shows in behaviour, not only in the config object
+BODY = [
+    "SELECT",
+    "    a,",
+    "    b, '{{ k1 }}' AS c from tbl",
+    "WHERE a  = 1",
+    "    AND bbbbbbbbbbbbbbbbbbbbbbbbbbbbbbbbbbbbbbbbbbbbbbbbbbbbbbbbbbbbbbbbbbbbbbbbbbbbbbbbbbbb = 2",
+    "",
+]
 FILE_ORDER = ["setup.cfg", "tox.ini", "pep8.ini", ".sqlfluff", "pyproject.toml"]
 OVERRIDE_KEYS = ["core:dialect", "core:rules", "core:exclude_rules"]
 INLINE_KEYS = [
@@ -172,7 +185,7 @@ def gen_world(rng: Rng) -> dict:
                 if parts[0] == "core":
                     parts = parts[1:]
                 lines.append("-- sqlfluff:%s:%s" % (":".join(parts), v))
-            body = "\n".join(lines + ["SELECT a  FROM tbl", ""])
+            body = "\n".join(lines + BODY)
             files[name] = {"b64": b64(body.encode()), "mode": 0o644}
             sqls[name] = {"inline": inline, "dir": d}
     all_dirs = set(["home/u", home, "proj"] + dirs)
@@ -300,6 +313,7 @@ def run_one(ctx: Any, seed: int, tier: str, replay: Optional[dict] = None) -> di
                        "knobs": {"cfg_probe": True, "journal_reads": False, "lookahead": 2, "worker_env": node_env}}, sink=events)
 
     node = None
+    behaviour: dict[str, tuple] = {}  # file -> (op index, violations) as linted inside the history
     prefix: list = []
     last_ctx: Optional[tuple] = None  # (dir, inline digest) of the previous observation in this node
 
@@ -365,6 +379,10 @@ def run_one(ctx: Any, seed: int, tier: str, replay: Optional[dict] = None) -> di
                     r = node.call("lint_paths", paths=rels, processes=op["processes"], overrides=ov or None, extra_config=extra_rel,
                                   linter_handle="linter:L")
                     sim_time += node.pool.get("clock", 0)
+                    for rec in r.get("records", []):
+                        frel_ = os.path.normpath(os.path.join(cwd, rec["filepath"]))
+                        if frel_ in world["sqls"]:
+                            behaviour.setdefault(frel_, (opi, rec["violations"]))
                     probes["lint_p%d_%s" % (min(op["processes"], 2), op["backend"] if op["processes"] > 1 else "serial")] += 1
                 else:
                     argv = ["lint"] + rels + ["--format", "json", "-p", str(op["processes"])]
@@ -401,7 +419,7 @@ def run_one(ctx: Any, seed: int, tier: str, replay: Optional[dict] = None) -> di
                     if parts[0] == "core":
                         parts = parts[1:]
                     lines.append("-- sqlfluff:%s:%s" % (":".join(parts), v))
-                sql = "\n".join(lines + ["SELECT a  FROM tbl", ""])
+                sql = "\n".join(lines + BODY)
                 r = node.call("lint_string", sql=sql, handle="L", overrides=ov or None, extra_config=extra_rel)
                 obs = [e for e in events if e and e[0] == "cfgobs"]
                 if "exception" in r:
@@ -418,6 +436,53 @@ def run_one(ctx: Any, seed: int, tier: str, replay: Optional[dict] = None) -> di
                         violations.append({"oracle": "root-config-mutated", "signature": "C27:isolation",
                                            "message": "after lint_string with inline %s the shared Linter's root config changed: %s" % (inline, bad)})
                 log.append([opi, "lint_string", inline, sorted((e[2], sorted(e[3].items())) for e in obs if isinstance(e[3], dict))])
+        # ---- behavioural cross-check: the violations a file got INSIDE the history (whole hierarchy,
+        # shared caches, workers) must equal those of the same file linted in a fresh process against ONE
+        # flat .sqlfluff holding the reference model's values (inline directives stay in the file)
+        picks = sorted(behaviour)
+        if picks:
+            k0 = seed % len(picks)
+            picks = [picks[k0]] + ([picks[(k0 + 1) % len(picks)]] if len(picks) > 1 and tier != "quick" else [])
+        for frel in picks:
+            opi_b, got_v = behaviour[frel]
+            want, _ = model(world, world["sqls"][frel]["dir"], {})
+            flat = {k: v for k, v in want.items() if v is not None}
+            root2 = cl.new_root("C27b-%d-%s" % (seed, sha(frel)[:6]))
+            try:
+                tree2: dict[str, Any] = {"home/u/": (None, 0o755), "proj/": (None, 0o755)}
+                d_ = os.path.dirname(frel)
+                while d_ and d_ != "proj":
+                    tree2[d_ + "/"] = (None, 0o755)
+                    d_ = os.path.dirname(d_)
+                tree2["proj/.sqlfluff"] = (render_ini(flat), 0o644)
+                tree2[frel] = initial[frel]
+                seams.restore_tree(root2, tree2)
+                home2 = os.path.join(root2, "home/u")
+                fn = z.node({"name": "flat", "root": root2, "cwd": cwd, "seed": seed + 7000, "env": {"HOME": home2, "XDG_CONFIG_HOME": os.path.join(home2, ".config")},
+                             "knobs": {"journal_reads": False}})
+                try:
+                    fr = fn.call("lint_paths", paths=[os.path.relpath(frel, cwd)], processes=1)
+                finally:
+                    fn.close()
+            finally:
+                cl.drop_root(root2)
+            evaluations += 1
+            probes["behavioural_crosschecks"] += 1
+            want_v = [rec["violations"] for rec in fr.get("records", [])]
+            want_v = want_v[0] if want_v else None
+            log.append(["behaviour", frel, opi_b, sha(json.dumps(got_v, sort_keys=True))[:12], sha(json.dumps(want_v, sort_keys=True))[:12]])
+            if "exception" in fr or want_v is None:
+                probes["behavioural_reference_failed"] += 1
+                continue
+            if json.loads(json.dumps(got_v)) != json.loads(json.dumps(want_v)):
+                def brief(vs: list) -> list:
+                    return sorted({(v_.get("code"), v_.get("start_line_no"), v_.get("start_line_pos")) for v_ in vs})
+                violations.append({
+                    "oracle": "behaviour-vs-flat-config",
+                    "signature": "C27:behaviour",
+                    "message": "file %s linted in history op #%d behaves differently from the same file linted alone against one flat config holding the model's values %s: history-only %s, flat-only %s" % (
+                        frel, opi_b, flat, sorted(set(brief(got_v)) - set(brief(want_v)))[:6], sorted(set(brief(want_v)) - set(brief(got_v)))[:6]),
+                })
         if not samples:
             samples.append({
                 "sources": world["sources"], "overrides": world["overrides"], "extra": world["extra"],
